@@ -524,6 +524,20 @@ def run(ctx):
     okv, whyv = _inv.validator_scans_all(fx)
     ctx.inst('V', 'indexed-pixel validator', okv, 'validate_indexed_pixels: %s (a dense-palette shortcut would reject valid sprites with a sparse '
              'palette and accept indices that have no colour)' % whyv, None, key='asefile::palette::ColorPalette::validate_indexed_pixels|V|scan')
+    # an absent cel reads as empty, whichever slot it is: CelsData::cel looks the layer up with a bounds-checked access (a row is only
+    # as long as the highest layer that has a cel in that frame; seed C06-s dropped the check "because callers assert layer < num_layers")
+    import panics as _pn
+    import totality as _Tt
+    cb_ = ctx.anchor('asefile::cel::CelsData::cel')
+    if cb_ is not None:
+        for s_ in _pn.inventory(fx, [cb_]):
+            if s_.kind not in ('ext:index', 'ext:index_mut') or not any(isinstance(x, tuple) and x and x[0] == 'field' and x[2] == 'layer'
+                                                                         for a_ in s_.detail.get('args', [])[1:] for x in walk(a_)):
+                continue
+            why_ = _Tt.guard_index(s_)
+            ctx.inst('E', 'CelsData::cel#layer-bound', why_ is not None, 'the row is indexed with the layer %s' % (
+                'under a bounds test: a layer beyond the row reads as "no cel"' if why_ else 'WITHOUT a bounds test: an absent cel above the last stored one panics'),
+                s_.span, key=cb_.name + '|E|layer-bound')
     layout.tile_words(ctx, 'T')
     # ---------- shared skeleton clauses
     import iorules as _io
